@@ -1,19 +1,21 @@
 #!/bin/sh
 # Runs every kept seeded change the official way: apply to /repo, run the
 # property's quick check (evidence/replays redirected to a scratch dir), undo.
-# Usage: sh seeded_official.sh [tier]
+# Usage: sh seeded_official.sh [tier] [glob, default *]
 TIER=${1:-quick}
 OUT=/tmp/seeded-official-$$
 mkdir -p $OUT
 cd /verif
 git -C /repo diff --quiet || { echo "/repo has local changes, refusing"; exit 2; }
-for d in seeded/*/; do
+PAT=${2:-*}
+for d in seeded/$PAT/; do
   n=$(basename $d)
   p=$(python3 -c "import json;print(json.load(open('$d/meta.json'))['property'])")
   git -C /repo apply --whitespace=nowarn $PWD/$d/patch.diff || { echo "$n APPLY-FAILED"; continue; }
   VERIF_OUT=$OUT python3 check.py $p $TIER > $OUT/$n.log 2>&1
   rc=$?
   git -C /repo checkout -- .
+  git -C /repo clean -fdq
   sig=$(grep -m3 "signature:" $OUT/$n.log | sed 's/.*signature: //' | tr '\n' ' ')
   echo "$n $p rc=$rc $sig"
 done
